@@ -35,7 +35,7 @@ func (e Ev) Coq() string {
 		return fmt.Sprintf("NFinish %s %s", a, z(e.O))
 	case "XAcks":
 		return fmt.Sprintf("XAcks %s %s", hx.ZList(e.L), hx.ZList(e.L2))
-	case "XForceCancel", "XCloseMark":
+	case "XForceCancel", "XCloseMark", "XCloseReturned":
 		return e.K
 	}
 	return e.K + " " + a // unary caller events, XCancel, XTimerFire
@@ -187,6 +187,12 @@ func corpus() []Scenario {
 	r = append(r, Scenario{"corpus:two-retransmissions", onePlan(3),
 		[]Decision{{T: "call", C: 0}, until("c0", "rpc.retry.select"), {T: "fire", C: 0}, until("c0", "rpc.retry.select"), {T: "fire", C: 0},
 			until("c0", "rpc.retry.select"), {T: "fire", C: 0}, fin("c0")}, 1})
+	// C26: graceful Close with a pending call: Close returns only after the call returned; a later Do is rejected
+	r = append(r, Scenario{"corpus:graceful-close-waits", Plan{MaxRetries: 3, Calls: []CallPlan{{ID: 1001, Seq: 3, Body: 77}, {ID: 1002, Seq: 5, Body: 78}}},
+		[]Decision{{T: "call", C: 0}, until("c0", "rpc.retry.select"), {T: "close"}, step("x0"), {T: "res", M: 1001, V: 9}, fin("n0"), fin("c0"),
+			{T: "call", C: 1}, fin("c1")}, 1})
+	r = append(r, Scenario{"corpus:force-close-waits", Plan{MaxRetries: 3, Calls: []CallPlan{{ID: 1001, Seq: 3, Body: 77}, {ID: 1002, Seq: 5, Body: 78}}},
+		[]Decision{{T: "call", C: 0}, until("c0", "rpc.retry.select"), {T: "fclose"}, step("x0"), step("x0"), {T: "call", C: 1}, fin("c1"), fin("c0")}, 1})
 	// C26: cancel before the first transmission completes (ctx error from send): no drop
 	r = append(r, Scenario{"corpus:cancel-before-send", onePlan(3, SendCtx),
 		[]Decision{{T: "call", C: 0}, until("c0", "rpc.retry.ackwait"), {T: "cancel", C: 0}, fin("c0")}, 1})
@@ -367,7 +373,7 @@ func randomRun(rng *hx.Rand) (*Sim, []string, Scenario) {
 				s.Apply(Decision{T: "fclose"})
 			}
 		default:
-			if !s.CloseCalled() && len(live) == 0 && rng.Chance(1, 3) {
+			if !s.CloseCalled() && rng.Chance(1, 2) {
 				s.Apply(Decision{T: "close"})
 			}
 		}
